@@ -134,8 +134,8 @@ GoodMsgs(frames) == FoldLeft(LAMBDA acc, f : IF GoodFrame(f) THEN acc \o FrameMs
 WireWellFormed(s) ==
     IF Len(s) = 0 THEN TRUE
     ELSE /\ s[1] = MAGIC /\ s[Len(s)] = MAGIC
-         /\ \A k \in 1..Len(FramesSynced(s)) : LET f == FramesSynced(s)[k] IN CanonicalEscaped(f) /\ GoodFrame(f)
+         /\ LET fs == FramesSynced(s) IN \A k \in 1..Len(fs) : CanonicalEscaped(fs[k]) /\ GoodFrame(fs[k])
          /\ \A i \in 1..(Len(s) - 2) : ~(s[i] = MAGIC /\ s[i+1] = MAGIC /\ s[i+2] = MAGIC)
-WirePackets(s) == [k \in 1..Len(FramesSynced(s)) |-> FrameMsgs(FramesSynced(s)[k])]
+WirePackets(s) == LET fs == FramesSynced(s) IN [k \in 1..Len(fs) |-> FrameMsgs(fs[k])]
 Flatten(ss) == FoldLeft(LAMBDA acc, x : acc \o x, <<>>, ss)
 =============================================================================
